@@ -581,3 +581,32 @@ Proof.
     + apply Nat.leb_le. rewrite map_length. apply (L1 s HL). apply Hl.
   - rewrite map_map. simpl. rewrite map_id. apply nodupb_NoDup. apply (P1 s HP).
 Qed.
+
+(* a request that holds a reservation when CloseIdleConnections runs still opens its stream on
+   that connection: the interleaving "picked (GotConn) - CloseIdleConnections - writeRequest" *)
+Theorem h2_reserved_survives_close_idle : forall evs r c retry, let s := h2_run evs in
+  r_phase s r = RReserved c -> can_take (unreserve s c r) c = true ->
+  let s' := h2_step (h2_step s H2CloseIdle) (H2Open r retry) in
+  c_closed (h2_step s H2CloseIdle) c = c_closed s c /\
+  r_phase s' r = ROpen c (c_next s c) /\ c_closed s' c = false.
+Proof.
+  intros evs r c retry s Hp Hct s'. pose proof (h2_run_inv evs) as H. fold s in H.
+  destruct H as [_ _ HR _ _ _ _].
+  assert (Hin : In r (c_resv s c)) by (apply (R4 s HR); auto).
+  assert (Hres : c_reserved s c <> 0).
+  { rewrite (R1 s HR). destruct (c_resv s c); [contradiction | discriminate]. }
+  assert (Hcl : c_closed s c = false).
+  { unfold can_take in Hct. repeat (apply andb_prop in Hct; destruct Hct as [Hct ?]).
+    simpl in *. apply negb_true_iff; auto. }
+  assert (Hsame : c_closed (h2_step s H2CloseIdle) c = c_closed s c).
+  { simpl. rewrite Hcl. simpl. apply Nat.eqb_neq in Hres. rewrite Hres. rewrite andb_false_r. reflexivity. }
+  split; [exact Hsame|].
+  subst s'. set (s1 := h2_step s H2CloseIdle).
+  assert (Hp1 : r_phase s1 r = RReserved c) by exact Hp.
+  assert (Hct1 : can_take (unreserve s1 c r) c = true).
+  { unfold can_take in *. simpl in *. rewrite Hcl in *. simpl.
+    apply Nat.eqb_neq in Hres. rewrite Hres. rewrite andb_false_r. simpl. exact Hct. }
+  cbn [h2_step]. rewrite Hp1, Hct1. simpl. unfold upd. rewrite !Nat.eqb_refl.
+  split; [reflexivity|].
+  rewrite Hcl. simpl. apply Nat.eqb_neq in Hres. rewrite Hres. rewrite andb_false_r. reflexivity.
+Qed.
